@@ -268,6 +268,38 @@ theorem C08_served_lookups_total (text idx : List UInt8) (addrs : List Nat) (ls 
     · cases h
       exact BPC.lookupSeq_spec text ix _ addrs (BPC.parseSymindex_lengths idx ix hix)
 
+/-- … and the same with an `iter_symbols()` pass (symbol_map.rs:244-272, sharing the memo tables) between two
+runs of lookups: the pass never indexes `symbol_entries` out of range, and the lookups before and after it
+return a result or nothing with the same two guarantees. (`BPC.serveSession`, compared value-for-value by the
+`bpmap … iter …` operation.) -/
+theorem C08_served_session_total (text idx : List UInt8) (pre post : List Nat) (ls1 ls2 : List BP.Look)
+    (names : Option (List (Nat × List UInt8)))
+    (h : BPC.serveSession text idx pre post = .session ls1 names ls2) :
+    names ≠ none ∧
+    (∀ (k a : Nat), pre[k]? = some a →
+      ∃ lk : BP.Look, ls1[k]? = some lk ∧ lk ≠ BP.Look.panic ∧
+        ∀ r : BP.LookupResult, lk = BP.Look.found r → r.symAddr ≤ a ∧ r.frames ≠ some []) ∧
+    (∀ (k a : Nat), post[k]? = some a →
+      ∃ lk : BP.Look, ls2[k]? = some lk ∧ lk ≠ BP.Look.panic ∧
+        ∀ r : BP.LookupResult, lk = BP.Look.found r → r.symAddr ≤ a ∧ r.frames ≠ some []) := by
+  unfold BPC.serveSession at h
+  split at h
+  · cases h
+  · rename_i ix hix
+    have hl := BPC.parseSymindex_lengths idx ix hix
+    split at h
+    · cases h
+    · simp only at h
+      have hsome := BPC.iterSymbolsC_isSome text ix (BPC.lookupSeqC text ix BPC.Cache.empty pre).2 ix.addrs 0
+        (by omega)
+      split at h
+      · rename_i hnone
+        rw [hnone] at hsome
+        cases hsome
+      · rename_i it hit
+        cases h
+        exact ⟨by simp, (BPC.lookupSeq_spec text ix _ pre hl).2, (BPC.lookupSeq_spec text ix _ post hl).2⟩
+
 /-- **Clause (f) on C10's symbol-map model.** Any text below 2^64 bytes, with or without a stored index of any
 contents: building the map panics only in the excluded region (a self-built index of 4 GiB or more, see
 `C08_symindex_layout_excluded`), in particular never at `parse_symindex_file(..).unwrap()`
